@@ -668,8 +668,8 @@ pub fn eval_det(req: &str, reg_s: &str, root: &str, rv: u32, strat_s: &str) -> C
 pub fn gen_c07(sink: &mut Sink, thorough: bool, seed: u64) {
     let mut rng = Rng::new(seed ^ 0x0707);
     let n = if thorough { 60_000 } else { 4_000 };
-    for _ in 0..n {
-        let reg = crate::solver::random_registry::<VS>(&mut rng, &[1, 3, 5]);
+    for i in 0..n {
+        let reg = if i % 2 == 1 { crate::solver::layered_registry::<VS>(&mut rng, &[1, 3, 5]) } else { crate::solver::random_registry::<VS>(&mut rng, &[1, 3, 5]) };
         let rvs = reg.versions("root");
         let rv = if rvs.is_empty() { 1 } else { rvs[rng.below(rvs.len() as u64) as usize] };
         let strat = crate::solver::random_strat(&mut rng);
